@@ -131,7 +131,29 @@ impl StorageEngine {
             }),
 //@@ body
 //@@ end
+
+// LINDEX: the element at the Redis index (negative = from the tail), nil outside the list; a read through the lazy purge
+//@@ unit lindex fn src/storage/engine.rs StorageEngine::lindex
+//@@   params drop "db: DatabaseIndex" add "shard_guard: &mut DatabaseShard"
+//@@   rewrite R2
+//@@   rewrite RT "list.get(idx as usize).cloned()" "verif_deque_get_cloned(list, idx as usize)"
+    fn lindex(&self, shard_guard: &mut DatabaseShard, key: &[u8], index: isize) -> (r: Result<Option<Vec<u8>>>)
+        ensures
+            unchanged(eff(*old(shard_guard), key_of(key@)), sv(*final(shard_guard))),
+            holds_non_list(eff(*old(shard_guard), key_of(key@)), key_of(key@)) ==> r is Err,
+            !eff(*old(shard_guard), key_of(key@)).data.contains_key(key_of(key@)) ==> r == Ok::<Option<Vec<u8>>, FerrousError>(None),
+            list_at(eff(*old(shard_guard), key_of(key@)), key_of(key@)) matches Some(l) ==> (match spec_index(l.len() as int, index as int) {
+                None => r == Ok::<Option<Vec<u8>>, FerrousError>(None),
+                Some(i) => r matches Ok(Some(v)) && v == l[i],
+            }),
+//@@ body
+//@@ end
 }
+/// `list.get(i).cloned()` on the VecDeque (RT site): a copy of the i-th element, None past the end
+#[verifier::external_body]
+pub fn verif_deque_get_cloned(l: &VecDeque<Vec<u8>>, i: usize) -> (r: Option<Vec<u8>>)
+    ensures i < l@.len() ==> r == Some(l@[i as int]), i >= l@.len() ==> r is None,
+{ unimplemented!() }
 
 } // verus!
 fn main() {}
